@@ -146,7 +146,7 @@ class Diff(object):
         self.robs, self.mobs = robs, mobs
 
 
-def check_histories(histories, stats=None):
+def check_histories(histories, stats=None, pair_check=None):
     """Run all histories on both sides. Returns list of Diff (first per history)."""
     reals = [run_real(h) for h in histories]
     models = run_model([ml for (_, ml) in reals])
@@ -163,13 +163,22 @@ def check_histories(histories, stats=None):
             if why is not None:
                 diffs.append(Diff(hi, si, ln, why, ro, mo))
                 break
+        else:
+            if pair_check is not None:
+                why = pair_check(h, robs)
+                if why is not None:
+                    diffs.append(Diff(hi, len(h) - 1, h[-1], 'property oracle on the implementation alone: ' + why,
+                                      robs[-1], mobs[-1]))
     return diffs
+
+
+PAIR_CHECK = None
 
 
 def fails(lines):
     """Does this single history still show a difference? Returns Diff or None."""
     try:
-        d = check_histories([lines])
+        d = check_histories([lines], pair_check=PAIR_CHECK)
     except Exception:
         return None
     if d and (d[0].reason.startswith('model rejected') or d[0].reason.startswith('map missing')):
